@@ -18,7 +18,7 @@ CHECKS = {
  "C04": ("stateful property-based testing (rapid, generated call histories) with a fresh-compile differential oracle",
          "Histories of Select/Evaluate calls (full, abandoned half-way, other contexts, a related or unrelated second document, unrelated recompile in between, evaluations that abort) on ONE compiled expression; after every action the observation must equal that of a freshly compiled expression. A second unit advances two live iterators of one compiled expression in a drawn interleaving (harness-owned schedule)." + EXPL, "Self-differential: trusts the engine on a fresh compile (its values are decided by C01-C03/C07-C09).", "DESIGN.md section 4 C04"),
  "C05": ("property-based stress under the Go race detector (rapid-generated goroutine plans, start barrier) with a sequential differential oracle",
-         "2-8 goroutines share one *Expr (Select / Evaluate / Compile of the same text / regex functions / two interleaved iterators); the race detector's log must not grow, the process must survive (crash journal) and every result must equal the sequential one. Exploration with sampled schedules is what this technique can give; interleavings are not enumerated.", "Schedules are sampled; a race needing a rare window can be missed. Trusts the Go race detector.", "DESIGN.md section 4 C05"),
+         "2-8 goroutines share one *Expr (Select / Evaluate / Compile of the same text / regex functions / two interleaved iterators); the race detector's log must not grow, the process must survive (crash journal) and every result must equal the sequential one (and, for regex calls on literals, the value Go's regexp computes - what the call returns when run alone in a process). Exploration with sampled schedules is what this technique can give; interleavings are not enumerated.", "Schedules are sampled; a race needing a rare window can be missed. Trusts the Go race detector.", "DESIGN.md section 4 C05"),
  "C06": ("property-based testing with byte-level mutation (rapid) + bounded-exhaustive deep-nesting cases run with a crash journal + native coverage-guided fuzzing (thorough)",
          "Valid/unconstrained/soup expressions with 0-3 byte- or token-level mutations under every namespace configuration; every recursive grammar construct nested to 10^5 (8 MB stack) / 3*10^6 (default stack); alternations of two constructs at depths 2..198 (compile cost must stay polynomial, watchdog); N completed constructs followed by N+250 levels of nesting (depth accounting); every segment of <= 3 lexical chunks repeated 40x (sibling repetition, decided by an allocation budget); every string of <= 3 hostile bytes; go-fuzz in the thorough tier; Compile returns exactly one of (expr, err), nothing panics, the process survives, MustCompile is usable." + EXPL, "Termination is decided within an explicit wall-clock margin with an isolated retry, and for repeated sibling constructs by an allocation budget.", "DESIGN.md section 4 C06"),
  "C07": ("property-based differential testing (rapid) against a reference evaluator",
@@ -26,7 +26,7 @@ CHECKS = {
  "C08": ("property-based differential testing (rapid) against a reference evaluator with exact float comparison",
          "Arithmetic trees of depth <= 4 over literals, document-derived numbers, NaN/Infinity, mod/floor/ceiling/number/count/sum/string-length and string() of finite small values; bit-exact agreement with the reference." + EXPL, REF + " Same IEEE operations in the same order on both sides.", "DESIGN.md section 4 C08"),
  "C09": ("property-based differential testing (rapid) + exhaustive substring sweep against a reference evaluator",
-         "String-function trees of depth <= 4 over an ASCII pool and flat node-set arguments, plus the complete sweep of substring(s, start[, length]) for |s| <= 6 and start/length in -3..9 step 0.5." + EXPL, REF, "DESIGN.md section 4 C09"),
+         "String-function trees of depth <= 4 over an ASCII pool (incl. literals that contain a quote) and flat node-set arguments, the exhaustive enumeration of the two- and three-argument functions over small alphabets, plus the complete sweep of substring(s, start[, length]) for |s| <= 6 and start/length in -3..9 step 0.5." + EXPL, REF, "DESIGN.md section 4 C09"),
  "C10": ("bounded-exhaustive enumeration of operator chains with a parser round-trip oracle (verif hook) + property-based metamorphic testing (whitespace, abbreviations)",
          "All chains over the 14 binary operators up to length 5 (quick) / 6 (thorough), unary-minus placements and path-tier operands, compared with a table-driven reference parse through the parse-tree dump hook; for generated expressions the dump equals the AST, whitespace variants and abbreviation expansions keep dump and value." + EXPL, "Trusts the add-only hook VerifParseDump to render the parse tree faithfully.", "DESIGN.md section 4 C10"),
  "C11": ("property-based differential testing (rapid) on a hostile name alphabet with a multiset oracle",
@@ -34,13 +34,13 @@ CHECKS = {
  "C12": ("property-based differential + metamorphic testing (rapid): sequence oracle for flat paths, protocol relations for all node-set expressions",
          "Flat paths must yield the reference's document-order sequence; for any node-set expression Evaluate = Select as sequences, count() = length, reverse() = reversed, MoveNext stays false after exhaustion, Current() is stable and on the reported node." + EXPL, REF, "DESIGN.md section 4 C12"),
  "C13": ("property-based metamorphic testing (rapid), engine against engine, pinned by the reference evaluator",
-         "Absolute paths from every start node vs. the root; relative paths vs. addr(n)/p from the root; P[true()], (P), P|P, not(not(P)) identities; all also compared with the reference so a common-mode error cannot pass." + EXPL, REF, "DESIGN.md section 4 C13"),
+         "Absolute paths from every start node vs. the root; relative paths vs. addr(n)/p from the root; P[true()], (P), P|P, not(not(P)) identities; all also compared with the reference so a common-mode error cannot pass (paths whose last step carries a positional predicate on any axis take part in the relations only: no property says what they select)." + EXPL, REF, "DESIGN.md section 4 C13"),
  "C14": ("property-based testing (rapid) over namespace configurations with the statement transcribed as oracle",
          "Documents with 0-3 namespaces under varying prefixes x both navigator flavours x namespace maps (none, binding, re-binding, missing, empty, nil) x name tests on all axes and the three name functions; results must follow the documented matching rule, unbound prefixes must be compile errors; nothing is asserted where the statement is silent." + EXPL, REF, "DESIGN.md section 4 C14"),
  "C15": ("property-based testing with an unconstrained expression grammar and token soup (rapid) + exhaustive ill-typed call/operator enumeration + native fuzzing (thorough), validity-predicate oracle with an operation budget",
-         "Whatever Compile accepts is evaluated (Select and Evaluate, drained) on small documents: it must complete or panic with a non-runtime error value, return a documented type, and terminate within a navigator-operation budget." + EXPL, "A panic whose value is an error but not a runtime.Error counts as deliberate. KF-round (round() returns int) is a recorded known finding.", "DESIGN.md section 4 C15"),
+         "Whatever Compile accepts is evaluated (Select and Evaluate, drained) on small documents (one in four wide, deep, a chain of 25 levels or attribute-rich; non-ASCII names and values): it must complete or panic with a non-runtime error value, return a documented type, and terminate within a navigator-operation budget (decisive on documents of <= 16 nodes, re-decided on pruned copies otherwise)." + EXPL, "A panic whose value is an error but not a runtime.Error counts as deliberate. KF-round (round() returns int) is a recorded known finding.", "DESIGN.md section 4 C15"),
  "C16": ("property-based differential testing against Go's regexp (rapid) + stateful cache histories with invariants + goroutine block under the race detector",
-         "matches()/replace() over a regex grammar with up to 12 groups vs. regexp and a manual expansion; cache histories over capacities 0..5 with failing loads and a swapped-in RegexpCache, checked after every step (exact value, bounded size, no load for cached keys, failed loads not remembered); a harness-owned schedule in which all loads are held in their miss window and released in a drawn order; concurrent gets under -race." + EXPL, "Trusts Go's regexp and the verif-tagged cache accessors; schedules are sampled.", "DESIGN.md section 4 C16"),
+         "matches()/replace() over a regex grammar with up to 12 groups vs. regexp and a manual expansion, incl. multi-byte subjects, the empty node-set as subject, two resembling patterns in one expression and patterns/replacements taken from the document node by node; cache histories over capacities 0..5 with failing loads and a swapped-in RegexpCache, checked after every step (exact value, bounded size, no load for cached keys, failed loads not remembered); a harness-owned schedule in which all loads are held in their miss window and released in a drawn order; concurrent gets under -race." + EXPL, "Trusts Go's regexp and the verif-tagged cache accessors; schedules are sampled.", "DESIGN.md section 4 C16"),
  "C17": ("property-based testing with exhaustive damage positions (rapid-generated valid expressions, every position of every damage operator)",
          "Every applicable position of every damage class of the statement is applied to generated valid expressions; Compile must return an error. Only damages that are invalid by construction are generated." + EXPL, "Assumes the damage operators are invalid by construction as argued in DESIGN.md.", "DESIGN.md section 4 C17"),
 }
